@@ -191,6 +191,11 @@ def cases(draw, P):
         program.append(ops)
     if uses_gate and not P.get("gates_never_open"):
         program.append([["sleep", draw(st.sampled_from(P.get("gate_delays", [1e-3, 0.4, 3.0, 20.0])))], ["open_gate", 0]])
+    if P["max_faults"] and draw(st.integers(0, 5)) == 0:
+        # an external killer: kill -9 / OOM killer hitting the k-th spawned worker at some instant, wherever it is (also
+        # blocked idle on the call queue, where no fault placed at one of its own scheduling points can fall)
+        program.append([["sleep", draw(st.sampled_from([1e-3, 0.3, 2.0, 12.0]))],
+                        ["kill", draw(st.integers(0, cfg["max_workers"] + 1)), draw(st.sampled_from(P.get("causes", CAUSES)))]])
     if P.get("probe"):
         program.append([["hold"], ["sleep", 5000.0], ["probe", P["probe"]]])
     case = {"config": cfg, "program": program, "schedule": draw(schedules(P)),
@@ -238,6 +243,13 @@ def resize_cases(draw, P):
         if draw(st.integers(0, 3)) == 0:
             ops.append(["wait_all"])
         new = draw(st.integers(1, P["max_workers"]))
+        if k and draw(st.integers(0, 5)) == 0:
+            # a request made with warnings turned into errors: with jobs still running it is aborted by the "running jobs"
+            # UserWarning before anything was done; the same request is then repeated normally
+            ops.append(["get", {"max_workers": new, "timeout": timeout, "reuse": "auto", "kill_workers": False,
+                                "initializer": cfg["initializer"], "warn_error": True}])
+            if draw(st.booleans()):
+                ops.append(["wait_all"])
         ops.append(["get", {"max_workers": new, "timeout": timeout, "reuse": draw(st.sampled_from(["auto", "auto", True])),
                             "kill_workers": False, "initializer": cfg["initializer"]}])
     k = draw(st.integers(0, 3))
@@ -384,7 +396,15 @@ def history_get_cases(draw, P):
             ops.append(["wait_all"])
     faults = []
     if P.get("idle_death") and draw(st.integers(0, 2)) == 0:
-        faults = [{"worker": draw(st.integers(0, P["max_workers"] + 2)), "at": draw(st.integers(20, 120)), "cause": draw(st.sampled_from([-9, -11, 3]))}]
+        if draw(st.booleans()):
+            faults = [{"worker": draw(st.integers(0, P["max_workers"] + 2)),
+                       "at": draw(st.one_of(st.integers(1, 12), st.integers(1, 12), st.integers(20, 120))),
+                       "cause": draw(st.sampled_from([-9, -11, 3]))}]
+        else:
+            # killed from outside while it sits idle (any worker spawned so far, the most recent ones more often)
+            if draw(st.booleans()):
+                ops.append(["sleep", draw(st.sampled_from([1e-3, 0.3, 2.0]))])
+            ops.append(["kill", draw(st.integers(0, P["max_workers"] + 2)), draw(st.sampled_from([-9, -11]))])
         ops.append(["sleep", 50.0])          # settle: a watched death is noticed long before this ends
     ops.append(get_op())
     ops.append(["submit", {"kind": "echo", "token": 7777}])
